@@ -54,4 +54,24 @@ theorem CInv_reachable (s : St) (hr : Reachable s) : CInv s := by
   | init => exact CInv_init
   | step s s' a _ hs ih => exact CInv_step s s' a ih hs
 
+/-! ### a caller at its deferred `RemoveCall` -/
+
+set_option maxHeartbeats 1000000 in
+/-- a caller whose only remaining deferred call is `RemoveCall` is moved on by
+    that step alone: every other action leaves its program counter where it is -/
+theorem rm_only_cRm (s s' : St) (a : Act) (c : Nat) (o : Out) (hpc : (s.callers c).pc = .rm o)
+    (hs : step s a = some s') : (s'.callers c).pc = .rm o ∨ a = .cRm c := by
+  step_cases a with hs
+  all_goals
+    simp [setCaller, setNotifier, setSend, setHandler, setCloser, setPending, setTask, log, newSend, failedSend, abandon, returnCaller] at * <;>
+    grind
+
+/-- `RemoveCall` is always enabled there; it returns the outcome and clears the
+    table entry of the call's seqno -/
+theorem cRm_eff (s : St) (c : Nat) (o : Out) (hpc : (s.callers c).pc = .rm o) :
+    ∃ s', step s (.cRm c) = some s' ∧ (s'.callers c).pc = .ret o ∧
+      (s'.callers c).seq = (s.callers c).seq ∧ s'.pending (s.callers c).seq = none := by
+  simp only [step, hpc]
+  refine ⟨_, rfl, ?_, ?_, ?_⟩ <;> simp [setCaller, setPending, log] <;> split <;> simp
+
 end FmpRpc.T
